@@ -95,7 +95,7 @@ Sfx(s) == CASE s = "none" -> <<>>
 
 \* ---------------------------------------------------------------- feature vectors
 FV0 == [fam |-> "natural", h |-> H0, bip34 |-> 1, layout |-> <<"cb">>, enc |-> "ok", sfx |-> "data", mix |-> {}, unc |-> {}, target |-> 0,
-        filler |-> "cs", base |-> 0, weight |-> 0, commit |-> "auto", cbwit |-> "auto", lock |-> "none", txbad |-> "none"]
+        filler |-> "cs", base |-> 0, weight |-> 0, commit |-> "auto", cbwit |-> "auto", lock |-> "none", txbad |-> "none", skip |-> FALSE, badscript |-> FALSE]
 
 Layouts == UNION {[1..k -> {"cb", "tx", "cb2"}] : k \in 0..3}
 FamLayout == {[FV0 EXCEPT !.fam = "layout", !.layout = l] : l \in Layouts}
@@ -129,9 +129,22 @@ FamWitness == {[FV0 EXCEPT !.fam = "witness", !.mix = m, !.commit = c, !.cbwit =
                  m \in {{}, {"p2wsh"}}, c \in {"auto", "none", "bad", "force", "bad_then_ok", "ok_then_bad"}, w \in {"auto", "none", "short", "long", "two", "nonce"}}
 FamLock == {[FV0 EXCEPT !.fam = "lock", !.lock = l] : l \in {"cb_hm1", "cb_h", "cb_h_final", "tx_hm1", "tx_h", "tx_h_final"}}
 FamTxBad == {[FV0 EXCEPT !.fam = "txbad", !.txbad = x] : x \in {"dupin", "noout", "dupin_split"}}
+\* a spend whose script fails (the one rule that may depend on whether script verification is skipped)
+FamScripts == {[FV0 EXCEPT !.fam = "scripts", !.badscript = TRUE]}
+\* "scripts skipped": the block is connected on the assumed-valid fast path of ConnectBlock (buried under more than two weeks of headers
+\* below an assumed-valid block), where no script is executed. The resource rules must not notice: the sigop-cost boundary from every kind of
+\* counted placement and the weight boundary are replayed in that configuration. Every such block carries a spend with a failing script,
+\* so an accepted block also proves that scripts really were skipped.
+SkipMixes == IF Thorough THEN {{}, Counted} \cup {{c} : c \in Counted} \cup {{"p2sh", "p2wsh"}, {"p2shwsh", "p2shwpkh", "p2wpkh"}}
+             ELSE {{}, {"txOut"}, {"p2sh"}, {"p2wsh"}, {"p2shwsh"}, Counted}
+SkipWeights == {<<0, W - 1>>, <<0, W>>, <<0, W + 1>>, <<999900, W>>, <<999900, W + 1>>, <<1000000, W>>, <<1000001, W + 4>>}
+FamSkip == {[FV0 EXCEPT !.fam = "skip", !.skip = TRUE, !.mix = m, !.target = t] : m \in SkipMixes, t \in Targets}
+           \cup {[FV0 EXCEPT !.fam = "skip", !.skip = TRUE, !.base = p[1], !.weight = p[2]] : p \in SkipWeights}
+           \cup {[FV0 EXCEPT !.fam = "skip", !.skip = TRUE, !.base = 999000, !.weight = w, !.target = t, !.mix = Counted] : w \in {W, W + 1}, t \in {80000, 80001}}
+           \cup {[FV0 EXCEPT !.fam = "skip", !.skip = TRUE]}
 
 AllFV == {FV0} \cup FamLayout \cup {v \in FamBip34 : v.enc \in EncsFor(v.h) /\ (v.enc = "short" => v.sfx # "sigs")} \cup FamBip34Off \cup FamCbLen
-         \cup {v \in FamSigops : FamSigopsOK(v)} \cup FamWeight \cup FamBoth \cup FamWitness \cup FamLock \cup FamTxBad
+         \cup {v \in FamSigops : FamSigopsOK(v)} \cup FamWeight \cup FamBoth \cup FamWitness \cup FamLock \cup FamTxBad \cup FamScripts \cup FamSkip
 
 \* ---------------------------------------------------------------- Build: feature vector -> block
 CommitOut == <<Op("RET"), PushH("commit", <<>>)>>
@@ -157,6 +170,8 @@ BadTx(v) ==
   ELSE IF v.txbad = "dupin_split" THEN <<Tx(<<In(TrueSpk, <<>>, <<>>, 31), In(TrueSpk, <<>>, <<>>, 32), In(TrueSpk, <<>>, <<>>, 31)>>, <<TrueSpk>>)>>
   ELSE IF v.txbad = "noout" THEN <<Tx(<<In(TrueSpk, <<>>, <<>>, 31)>>, <<>>)>>
   ELSE <<>>
+\* a spend whose scriptSig is OP_RETURN: no sigops, fails when executed
+FailTx(v) == IF v.badscript \/ v.skip THEN <<Spend(TrueSpk, <<Op("RET")>>, <<>>, 33, TrueSpk)>> ELSE <<>>
 
 \* f legacy filler sigops on a coinbase output, w witness filler sigops
 BuildCore(v, f, w) ==
@@ -164,7 +179,7 @@ BuildCore(v, f, w) ==
       ptxs   == [i \in 1..Len(names) |-> PlaceTx[names[i]]]
       wtx    == IF w > 0 THEN <<WFillTx(w)>> ELSE <<>>
       padtx  == IF (v.base = 0 /\ v.weight > 0) \/ (v.base > 0 /\ v.weight > SCALE * v.base) THEN <<PadTx>> ELSE <<>>
-      others == ptxs \o wtx \o LockTx(v) \o BadTx(v) \o padtx
+      others == ptxs \o wtx \o LockTx(v) \o BadTx(v) \o FailTx(v) \o padtx
       anywit == \E i \in 1..Len(others) : TxHasWit(others[i])
       commitouts == CASE v.commit = "auto" -> IF anywit THEN <<CommitOut>> ELSE <<>>
                       [] v.commit = "none" -> <<>>
@@ -189,7 +204,8 @@ BuildCore(v, f, w) ==
                  EXCEPT !.lock = IF v.lock = "cb_hm1" THEN v.h - 1 ELSE IF v.lock \in {"cb_h", "cb_h_final"} THEN v.h ELSE 0]
       cbpos  == IF \E i \in 1..Len(v.layout) : v.layout[i] = "cb" THEN CHOOSE i \in 1..Len(v.layout) : v.layout[i] = "cb" /\ \A j \in 1..(i - 1) : v.layout[j] # "cb" ELSE 0
       ltxs   == [i \in 1..Len(v.layout) |-> LayoutTx(v.layout[i], i, [pos |-> cbpos, tx |-> cb])]
-  IN [h |-> v.h, bip34 |-> v.bip34, base |-> v.base, weight |-> v.weight, txs |-> ltxs \o others]
+  IN [h |-> v.h, bip34 |-> v.bip34, base |-> v.base, weight |-> v.weight, txs |-> ltxs \o others,
+      skip |-> v.skip, scriptsOK |-> FailTx(v) = <<>>]
 
 \* ---------------------------------------------------------------- the rules
 Txs(b) == b.txs
@@ -242,7 +258,10 @@ Check(b) ==
   ELSE IF WitnessRule(b) # "ok" THEN WitnessRule(b)
   ELSE IF b.weight > MAXW THEN "bad-blk-weight"
   \* ConnectBlock
+  \* (the sigop cost is counted with the block's script flags, P2SH and WITNESS on regtest, whether or not scripts are verified)
   ELSE IF CumulativeExceeds(b, 1, 0) THEN "bad-blk-sigops"
+  \* script verification, unless skipped (assumed-valid)
+  ELSE IF ~b.skip /\ ~b.scriptsOK THEN "script-failed"
   ELSE "ok"
 
 \* ---------------------------------------------------------------- the statement of C06
@@ -258,6 +277,7 @@ C06(b) == OneCoinbaseFirst(b) /\ HeightOK(b) /\ SizeOK(b) /\ SigopsOK(b)
 Others(b) == /\ \A i \in 1..NTx(b) : CheckTx(b.txs[i]) = "ok"
              /\ \A i \in 1..NTx(b) : IsFinal(b.txs[i], b.h)
              /\ (OneCoinbaseFirst(b) => WitnessRule(b) = "ok")
+             /\ (b.skip \/ b.scriptsOK)
 
 \* ---------------------------------------------------------------- TLC
 VARIABLES fv, blk, res
@@ -272,6 +292,11 @@ Next == UNCHANGED vars
 \* accept <=> statement (and the rules the statement is silent on)
 Agree == (res = "ok") <=> (C06(blk) /\ Others(blk))
 Safe == (res = "ok") => C06(blk)
+\* block resource rules are enforced identically whether or not script verification is skipped: the verdict of a block connected with
+\* scripts skipped is the verdict of the same block (without the failing spend that marks the skip) connected with scripts verified
+SkipIndependent == fv.skip => /\ res = Check(Build([fv EXCEPT !.skip = FALSE]))
+                              /\ C06(blk) = C06(Build([fv EXCEPT !.skip = FALSE]))
+                              /\ TotalCost(blk) = TotalCost(Build([fv EXCEPT !.skip = FALSE]))
 \* Build reaches the sigop target it was asked for, and the sizes are consistent
 TargetReached == fv.target > 0 => TotalCost(blk) = fv.target
 \* the two shadowed rules: the CheckBlock pre-checks never reject a block that the later, complete checks would accept
@@ -290,7 +315,8 @@ SetToSeq(S, order) == Filter(order, S)
 EmitRow == VFRow([fam |-> fv.fam,
                   fv |-> [layout |-> fv.layout, enc |-> fv.enc, sfx |-> fv.sfx, mix |-> SetToSeq(fv.mix, <<"cbSig", "cbSigMs">> \o PlaceOrder),
                           unc |-> SetToSeq(fv.unc, PlaceOrder \o <<"uCbNonce">>), target |-> fv.target, filler |-> fv.filler, commit |-> fv.commit,
-                          cbwit |-> fv.cbwit, lock |-> fv.lock, txbad |-> fv.txbad],
+                          cbwit |-> fv.cbwit, lock |-> fv.lock, txbad |-> fv.txbad, badscript |-> fv.badscript],
+                  skip |-> blk.skip,
                   h |-> blk.h, bip34 |-> blk.bip34, base |-> blk.base, weight |-> blk.weight,
                   txs |-> [i \in 1..NTx(blk) |-> JTx(blk.txs[i])],
                   res |-> res, c06 |-> C06(blk), others |-> Others(blk),
